@@ -8,6 +8,11 @@ NOT_APPLICABLE = {
     'C03': 'C++ exception capture/transport/rethrow: CBMC\'s usable front end here is C, extraction drops try/catch, so no contract can mention the behaviour (DESIGN.md §6)',
 }
 CLAIMS = {
+    'C06': {
+        'technique': 'CBMC contracts on parallel_sort.h: the probe loop of quick_sort_pretest_body under a dfcc loop contract with a ghost adjacent pair, the serial probe unwound completely, parallel_for as a stub that runs the body on an arbitrary chunk; loop-free harnesses for dispatch and median selection',
+        'text': 'For every length >= 500 and an arbitrary adjacent pair (p,p+1): if that pair is an inversion the whole sequence is handed to the quicksort - the pre-sortedness probe can never declare an unsorted input sorted, and it never compares a position outside [begin,end); parallel_sort dispatches < 500 elements to the serial sort, empty/reversed pairs to nothing; median_of_three returns one of its candidates holding the median value.',
+        'note': 'Trusted: parallel_for tiles the probe range (C05), the sorts themselves (stubs), comparator as an arbitrary relation on positions. Not decided: parallel_scan, reduce join order, split_range partition, scheduler dependence (C01).',
+    },
     'C13': {
         'technique': 'CBMC dfcc loop contracts for the bookkeeping and memory safety of heapify/reheap at every size; bounded unwinding (labelled bounded) for heap order, multiset preservation and whole batches through handle_operations, all on text sliced from concurrent_priority_queue.h',
         'text': 'For every heap size: reheap removes exactly one element, heapify merges all, mark never exceeds size, every index is in bounds. Bounded (<= 6 elements quick / 9 thorough; batches of <= 3 operations on <= 4 elements): data[0..mark) stays a max-heap, the multiset is preserved, every operation of a batch gets a status, size changes by +-1 per success, a pop fails only on an empty queue and never returns less than an element queued before the batch that is still queued.',
